@@ -64,3 +64,17 @@ Definition conn_eqb (a b : conn) : bool :=
 
 (* placeholder styles of Parameter.IDX_PLACEHOLDERS *)
 Inductive phstyle := PhConst (s : str) | PhNumbered (prefix : str).
+
+(* what `getattr(side, "operator", None)` yields for an operand of an ArithmeticExpression:
+   None, an Arithmetic member, or some other object (a Field made up by Selectable.__getattr__),
+   which is not None and compares "equal" to everything because Term.__eq__ returns a truthy
+   criterion object *)
+Inductive opattr := ONone | OArith (a : arith) | OTruthy.
+Definition opattr_is_none (o : opattr) : bool := match o with ONone => true | _ => false end.
+Definition arith_in (a : arith) (l : list arith) : bool := existsb (arith_eqb a) l.
+Definition opattr_eq (o : opattr) (a : arith) : bool :=
+  match o with ONone => false | OArith b => arith_eqb b a | OTruthy => true end.
+Definition opattr_in (o : opattr) (l : list arith) : bool := existsb (opattr_eq o) l.
+(* the operand of a ComplexCriterion, as far as needs_brackets looks at it *)
+Definition child_is_complex (c : option conn) : bool := match c with Some _ => true | None => false end.
+Definition child_conn_eq (c : option conn) (self : conn) : bool := match c with Some x => conn_eqb x self | None => false end.
